@@ -411,9 +411,34 @@ def rule_clump(ctx):
     src1 = full(l1)
     ok = 'elist.append((self._calc_msg_dgram_size(e), e))' in src1 and 'elist.append((self._calc_bndl_dgram_size(e[1:]), e))' in src1
     ctx.ob('C06.clump', f'{f.fq}:element-size', ok, 'element sizes come from the same predictor', l1, mod)
+    # slice style: `for i, (s, _) in enumerate(elist)` recording split points and slicing the element list afterwards.  The clumps
+    # tile the list only if each slice starts where the previous one ended
+    if isinstance(l2.target, ast.Tuple) and len(l2.target.elts) == 2 and isinstance(l2.target.elts[0], ast.Name) \
+            and isinstance(l2.target.elts[1], ast.Tuple) and isinstance(l2.iter, ast.Call) and norm(l2.iter.func) == 'enumerate':
+        idx = l2.target.elts[0].id
+        lst = norm(l2.iter.args[0])
+        slices = [x for x in walk_local(f.node) if isinstance(x, ast.Subscript) and isinstance(x.slice, ast.Slice) and norm(x.value) == lst]
+        starts = {norm(x.slice.lower) for x in slices if x.slice.lower is not None}
+        startv = next(iter(starts)) if len(starts) == 1 else None
+        moves = [norm(a.value) for a in walk_local(l2) if isinstance(a, ast.Assign) and norm(a.targets[0]) == startv]
+        inner_ok = all(x.slice.upper is None or norm(x.slice.upper) == idx for x in slices)
+        ok = startv is not None and len(slices) >= 2 and inner_ok and moves == [idx] and \
+            any(x.slice.upper is None for x in slices)
+        ctx.ob('C06.clump', f'{f.fq}:tail', ok,
+               f'clumps are slices {[norm(x) for x in slices]} of the element list with the start moved to {moves}: they tile the list only '
+               f'if every slice ends at the split index and the next starts there (start = {idx}); otherwise the element at each split '
+               f'point is in no clump (or in two)', l2, mod)
+        svar = l2.target.elts[1].elts[0].id if isinstance(l2.target.elts[1].elts[0], ast.Name) else None
+        accs = [s_.target.id for s_ in l2.body if isinstance(s_, ast.AugAssign) and isinstance(s_.op, ast.Add) and isinstance(s_.target, ast.Name)
+                and svar in U.names_in(s_.value) and s_.target.id != svar]
+        ctx.ob('C06.clump', f'{f.fq}:element-prefix', bool(accs) and any(norm(s_) == f'{svar} += 4' for s_ in l2.body),
+               'the accumulator adds element size + 4 (int32 size prefix)', l2, mod)
+        _clump_tail(ctx, f, mod)
+        return
     # per-element contribution: simulate the loop body arithmetic symbolically for s -> accumulated delta
-    svar = l2.target.elts[0].id if isinstance(l2.target, ast.Tuple) else None
-    evar = l2.target.elts[1].id if isinstance(l2.target, ast.Tuple) else None
+    svar = l2.target.elts[0].id if isinstance(l2.target, ast.Tuple) and isinstance(l2.target.elts[0], ast.Name) else None
+    evar = l2.target.elts[1].id if isinstance(l2.target, ast.Tuple) and isinstance(l2.target.elts[1], ast.Name) else None
+    ctx.require(svar is not None and evar is not None, 'C06.clump', f'cannot bind the loop variables of _clump_bundle ({norm(l2.target)})')
     # roles: accumulator = the name augmented by the element size in the loop; clump = list the element is appended to;
     # result = list the clump is appended to when flushing
     acc = None
@@ -461,6 +486,10 @@ def rule_clump(ctx):
         and isinstance(f.node.body[-1], ast.Return)
     ctx.ob('C06.clump', f'{f.fq}:tail', ok_tail and [norm(x) for x in l2.body][-1] == f'{clump}.append({evar})',
            'every element lands in exactly one clump, in order', f.node, mod)
+    _clump_tail(ctx, f, mod)
+
+
+def _clump_tail(ctx, f, mod):
     # sync reserve
     na = ctx.repo.cls('sc3.base.netaddr:NetAddr')
     K = {k: U.literal(v) for k, v in na.class_assigns.items()}
@@ -575,6 +604,9 @@ def run(ctx):
 
 
 MUTANTS = [
+    dict(rule='C06.clump', name='clumps sliced with the split element dropped (seed C17-f)', file='sc3/base/netaddr.py',
+         old="        res = []\n        clump = []\n        acc_size = 16  # Bundle prefix + Timetag bytes.\n        for s, e in elist:\n            s += 4  # Element size bytes.\n            if acc_size + s >= size:\n                res.append(clump)\n                clump = []\n                acc_size = 16  # Bundle prefix + Timetag bytes.\n            acc_size += s\n            clump.append(e)\n        if clump:\n            res.append(clump)\n        return res",
+         new="        res = []\n        start = 0\n        acc_size = 16  # Bundle prefix + Timetag bytes.\n        for i, (s, _) in enumerate(elist):\n            s += 4  # Element size bytes.\n            if acc_size + s >= size:\n                res.append([e for _, e in elist[start:i]])\n                start = i + 1\n                acc_size = 16  # Bundle prefix + Timetag bytes.\n            acc_size += s\n        if start < len(elist):\n            res.append([e for _, e in elist[start:]])\n        return res"),
     dict(rule='C06.coerce', name='add_arg stores (value, tag)', file='sc3/base/_osclib.py',
          old="            self._args.append((arg_type, arg_value))", new="            self._args.append((arg_value, arg_type))"),
     dict(rule='C06.coerce', name='add_arg inserts at the front', file='sc3/base/_osclib.py',
@@ -628,6 +660,9 @@ MUTANTS = [
 REPAIRS = []
 
 EQUIV = [
+    dict(name='clumps sliced at the split points (tiling)', file='sc3/base/netaddr.py',
+         old="        res = []\n        clump = []\n        acc_size = 16  # Bundle prefix + Timetag bytes.\n        for s, e in elist:\n            s += 4  # Element size bytes.\n            if acc_size + s >= size:\n                res.append(clump)\n                clump = []\n                acc_size = 16  # Bundle prefix + Timetag bytes.\n            acc_size += s\n            clump.append(e)\n        if clump:\n            res.append(clump)\n        return res",
+         new="        res = []\n        start = 0\n        acc_size = 16  # Bundle prefix + Timetag bytes.\n        for i, (s, _) in enumerate(elist):\n            s += 4  # Element size bytes.\n            if acc_size + s >= size and i > start:\n                res.append([e for _, e in elist[start:i]])\n                start = i\n                acc_size = 16  # Bundle prefix + Timetag bytes.\n            acc_size += s\n        if start < len(elist):\n            res.append([e for _, e in elist[start:]])\n        return res"),
     dict(name='rename locals of _clump_bundle', file='sc3/base/netaddr.py', start='    def _clump_bundle(self', end='    def _calc_bndl_dgram_size', rename=[('acc_size', 'total'), ('elist', 'sized'), ('clump', 'chunk')]),
     dict(name='rename locals of _calc_msg_dgram_size', file='sc3/base/netaddr.py', start='    def _calc_msg_dgram_size(self, msg):', end='    @staticmethod\n    def _strpad4', rename=[('val', 'item')]),
 ]
